@@ -1,6 +1,6 @@
 """Per-property run configuration for ./check (what to build, how to shard, what the evidence rule is)."""
 
-def U(name, bin, cmd, shards=(1, 1), timeout=(300, 3000), build="dev", tiers=("quick", "thorough"), **kw):
+def U(name, bin, cmd, shards=(1, 1), timeout=(900, 3000), build="dev", tiers=("quick", "thorough"), **kw):
     d = dict(name=name, bin=bin, cmd=cmd, build=build, tiers=list(tiers),
              shards=dict(quick=shards[0], thorough=shards[1]),
              timeout=dict(quick=timeout[0], thorough=timeout[1]))
